@@ -11,55 +11,31 @@ Proof. unfold utf8_decode. eexists. reflexivity. Qed.
 
 Lemma blob_cell_total (bs : list N) (cs : option text) (w : nat) :
   exists t, type_formatter (mkcell (VBytes bs) cs) w = Ok t.
-Proof. apply type_formatter_total. exact I. Qed.
+Proof. apply type_formatter_total. Qed.
 
 (* the decoder without errors="replace" (the code before fix 969ee82) raises on the F-C18-2 witness *)
 Lemma strict_decode_raises : utf8_decode false [255%N; 254%N] = Raise UnicodeDecodeError.
 Proof. reflexivity. Qed.
 
 Corollary box_lines_within_display f cfg cuts :
-  frame_ok f -> pframe f -> 1 <= limit cfg -> 1 <= mcw cfg -> 1 <= dwidth cfg -> frame_guard f cfg ->
+  frame_ok f -> pframe f -> 1 <= limit cfg -> 1 <= mcw cfg -> 1 <= dwidth cfg ->
   cut_lines f cfg = Ok cuts ->
   forall l1 l2, In (KBox, l1) cuts -> In (KBox, l2) cuts -> pw l1 = pw l2 /\ pw l1 <= dwidth cfg.
 Proof.
-  intros Hok Hp Hl Hm Hd G H l1 l2 H1 H2.
-  rewrite (box_lines_cut_width f cfg cuts Hok Hp Hl Hm Hd G H l1 H1).
-  rewrite (box_lines_cut_width f cfg cuts Hok Hp Hl Hm Hd G H l2 H2). split; [reflexivity|lia].
+  intros Hok Hp Hl Hm Hd H l1 l2 H1 H2.
+  rewrite (box_lines_cut_width f cfg cuts Hok Hp Hl Hm Hd H l1 H1).
+  rewrite (box_lines_cut_width f cfg cuts Hok Hp Hl Hm Hd H l2 H2). split; [reflexivity|lia].
 Qed.
 
-(* ---------- F-C18-3: timedelta64 NaT / month-year units ---------- *)
-Lemma nat_timedelta_raises :
-  type_formatter (mkcell (VNpTimedelta true true 0%Z) (Some (T "NaT"))) 4 = Raise ValueError.
+(* ---------- F-C18-3 (fixed by c25f207): timedelta64 NaT renders as null, 14 months as 1y 2mo ---------- *)
+Lemma nat_timedelta_null :
+  type_formatter (mkcell (VNpTimedelta true true 0%Z) (Some (T "NaT"))) 4
+  = Ok (tok "NULL" ++ T "null" ++ OFF).
 Proof. reflexivity. Qed.
-Lemma month_timedelta_raises :
-  type_formatter (mkcell (VNpTimedelta false false 0%Z) (Some (T "3 months"))) 8 = Raise TypeError.
+Lemma month_timedelta_interval :
+  type_formatter (mkcell (VNpTimedelta false false 14%Z) (Some (T "14 months"))) 9
+  = Ok (tok "INTERVAL" ++ T "1y 2mo" ++ OFF ++ OFF ++ T "   ").
 Proof. reflexivity. Qed.
-
-(* ---------- F-C18-5: lazy head-only, 100 rows, limit 100 ---------- *)
-Definition f5 : frame :=
-  mkframe [T "a"] None (repeat [mkcell VNone None] 100) true.
-Definition cfg5 : config := mkconfig 100 80 32 false false false.
-
-Lemma lazy_head_only_overflow :
-  frame_ok f5 /\ pframe f5 /\
-  exists cuts l1 l2, cut_lines f5 cfg5 = Ok cuts /\ In (KBox, l1) cuts /\ In (KBox, l2) cuts /\ pw l1 <> pw l2.
-Proof.
-  split; [|split].
-  - split; [exact I|]. unfold f5; cbn [rows names]. apply Forall_forall. intros r Hr. apply repeat_spec in Hr. now subst.
-  - split; [|split].
-    + constructor; [apply pasciib_pascii; reflexivity|constructor].
-    + exact I.
-    + unfold f5; cbn [rows]. apply Forall_forall. intros r Hr. apply repeat_spec in Hr. subst.
-      constructor; [exact I|constructor].
-  - destruct (cut_lines f5 cfg5) as [cuts|e] eqn:E; [|vm_compute in E; discriminate].
-    exists cuts, (snd (nth 0 cuts (KBox, []))), (snd (nth 102 cuts (KBox, []))).
-    assert (E' : cut_lines f5 cfg5 = Ok cuts) by exact E.
-    vm_compute in E. injection E as <-.
-    split; [reflexivity|]. split; [|split].
-    + vm_compute. now left.
-    + vm_compute. do 102 right. now left.
-    + vm_compute. discriminate.
-Qed.
 
 (* ---------- F-C18-4: the six characters \u0001 in printable content ---------- *)
 Definition f4 : frame :=
@@ -67,19 +43,18 @@ Definition f4 : frame :=
 Definition cfg4 : config := mkconfig 5 80 32 false true false.
 
 Lemma literal_u0001_breaks_width :
-  frame_ok f4 /\ pframe f4 /\ frame_guard f4 cfg4 /\
+  frame_ok f4 /\ pframe f4 /\
   exists cuts l1 l2, cut_lines f4 cfg4 = Ok cuts /\ In (KBox, l1) cuts /\ In (KBox, l2) cuts /\
     pw l1 = pw l2 /\
     length (colorizer l1 false) <> length (colorizer l2 false).
 Proof.
-  split; [|split; [|split]].
+  split; [|split].
   - split; [exact I|]. repeat constructor.
   - split; [|split].
     + constructor; [apply pasciib_pascii; reflexivity|constructor].
     + exact I.
     + constructor; [constructor; [unfold pcell; cbn [cv pval]; apply pasciib_pascii; reflexivity|constructor]|].
       constructor; [constructor; [unfold pcell; cbn [cv pval]; apply pasciib_pascii; reflexivity|constructor]|constructor].
-  - intros H; discriminate.
   - destruct (cut_lines f4 cfg4) as [cuts|e] eqn:E; [|vm_compute in E; discriminate].
     exists cuts, (snd (nth 3 cuts (KBox, []))), (snd (nth 4 cuts (KBox, []))).
     vm_compute in E. injection E as <-.
@@ -97,9 +72,9 @@ Definition fx : frame :=
     true.
 Definition cfgx : config := mkconfig 2 25 12 true true true.
 
-Lemma fx_hypotheses : frame_ok fx /\ pframe fx /\ frame_guard fx cfgx /\ cells_ok fx.
+Lemma fx_hypotheses : frame_ok fx /\ pframe fx.
 Proof.
-  split; [|split; [|split]].
+  split.
   - split; [reflexivity|]. vm_compute. repeat constructor.
   - split; [|split].
     + constructor; [apply pasciib_pascii; reflexivity|constructor; [apply pasciib_pascii; reflexivity|constructor]].
@@ -109,9 +84,6 @@ Proof.
       constructor; [unfold pcell; cbn [cv pval]; apply pascii_dec_nat|].
       constructor; [|constructor]. unfold pcell; cbn [cv pval].
       constructor; [apply pasciib_pascii; reflexivity|constructor; [apply pasciib_pascii; reflexivity|constructor]].
-  - intros _ H; discriminate.
-  - intros r c Hr Hc. unfold fx in Hr; cbn [rows] in Hr. apply in_map_iff in Hr. destruct Hr as (i & <- & _).
-    destruct Hc as [<-|[<-|[]]]; exact I.
 Qed.
 
 Lemma trunc_printable_width (s : text) (k w : nat) :
